@@ -38,6 +38,8 @@ func c15Content(file string, fmv, version int) string {
 		return fmt.Sprintf("---\nlayout: main\ntitle: T%d\n---\n<h1>page v%d {{ title }}</h1><template include=\"comp.vuego\"></template>", fmv, version)
 	case "comp.vuego":
 		return fmt.Sprintf("---\ncv: C%d\n---\n<i>comp v%d {{ cv }}</i>", fmv, version)
+	case "selfref.vuego": // a page whose top level REASSIGNS a variable of its own front-matter (a title suffix): read-modify-write per render
+		return fmt.Sprintf("---\ntitle: R%d\ncount: 1\n---\n<template :title=\"title + ' | site'\" :count=\"count + 1\"></template><h1>selfref v%d {{ title }} #{{ count }}</h1>", fmv, version)
 	case "solo.vuego": // names no layout: rendered as it is when layouts/base.vuego does not exist
 		return fmt.Sprintf("---\ntitle: S%d\n---\n<p>solo v%d {{ title }}</p>", fmv, version)
 	case "layouts/base.vuego", "pages/post.vuego", "layouts/post.vuego":
@@ -92,7 +94,7 @@ func c15Run(steps []c15Step, fsKind ...string) *Case {
 	fmVersion := map[string]int{}
 	mt := map[string]time.Time{}
 	hi, lo := now, now
-	for _, f := range append(append([]string{}, c15Files...), "solo.vuego") {
+	for _, f := range append(append([]string{}, c15Files...), "solo.vuego", "selfref.vuego") {
 		version[f] = 1
 		fmVersion[f] = 1
 		mt[f] = now
@@ -319,6 +321,22 @@ func runC15(r *Run, replay *Case) {
 						r.Add(c15Run(steps, "overlay"))
 					}
 				}
+			}
+		}
+	}
+	// a page that reassigns variables of its own front-matter, rendered again and again without an edit, then edited: answering from the cache
+	// gives what re-reading gives
+	for _, noBase := range []bool{true, false} {
+		for _, e := range []string{"template-render@selfref.vuego", "render-file@selfref.vuego", "vue-render@selfref.vuego", "vue-fragment@selfref.vuego"} {
+			for _, e2 := range []string{"template-render@selfref.vuego", "vue-render@selfref.vuego"} {
+				var steps []c15Step
+				if noBase {
+					steps = append(steps, c15Step{Op: "delete", File: "layouts/base.vuego"})
+				}
+				steps = append(steps, c15Step{Op: "render", Entry: e}, c15Step{Op: "render", Entry: e2}, c15Step{Op: "render", Entry: e},
+					c15Step{Op: "edit", File: "selfref.vuego", Mtime: "advance"}, c15Step{Op: "render", Entry: e2}, c15Step{Op: "render", Entry: e}, c15Step{Op: "render", Entry: e2})
+				r.Add(c15Run(steps))
+				r.Add(c15Run(steps, "overlay"))
 			}
 		}
 	}
